@@ -154,6 +154,14 @@ def gen_pairs(ctx, rng, count):
             opts["start"] = (t1 - datetime.timedelta(seconds=age)).replace(microsecond=0).strftime("%Y-%m-%dT%H:%M:%SZ")
         else:
             opts["start"] = start
+        if i % 16 == 5:
+            # a symbolic start that rolls over between the two requests (ledger: publishTime may step back)
+            day = datetime.datetime(t1.year, t1.month, max(2, t1.day), tzinfo=datetime.timezone.utc)
+            t1 = day + datetime.timedelta(seconds=59, microseconds=rng.choice([0, 500000]))
+            delta = datetime.timedelta(seconds=rng.choice([1, 1.5, 2]))
+            kind = "rollover"
+            opts["start"] = "today"
+            opts["mup"] = rng.choice(["7", "3", "13"])
         # every third case relies on *stream defaults* (Stream.defaults, the "Stream defaults" page)
         # for its timing options instead of spelling them in the URL
         defaults = None
@@ -212,6 +220,7 @@ def ch_pair(ctx) -> Channel:
             # publishTime / AST monotone
             if m2.publish_us < m1.publish_us or m2.ast_us < m1.ast_us:
                 ch.oracle_failures.append({**case, "kind": "time-moves-back",
+                                           "ast_changed": m1.ast_us != m2.ast_us,
                                            "what": f"publishTime {m1.publish_us}->{m2.publish_us}, AST {m1.ast_us}->{m2.ast_us}"})
             same_ast = m1.ast_us == m2.ast_us
             overlap = False
@@ -266,7 +275,8 @@ def ch_pair(ctx) -> Channel:
                         elif proot.get("mpdId") != root1.get("id"):
                             fail = f"mpdId {proot.get('mpdId')} vs {root1.get('id')}"
                         if fail:
-                            ch.oracle_failures.append({**case, "kind": "patch-not-equivalent", "what": fail, "patch_url": loc[1]})
+                            ch.oracle_failures.append({**case, "kind": "patch-not-equivalent", "what": fail,
+                                                       "patch_url": loc[1], "ast_changed": not same_ast})
                         overlap = True
                     except Exception as e:
                         ch.oracle_failures.append({**case, "kind": "patch-not-applicable", "what": f"{type(e).__name__}: {e}",
@@ -288,11 +298,29 @@ def channels(ctx):
 
 
 def matches_finding(finding, failure):
-    return False
+    """publishTime steps back (by less than one update period, C08 publish_mono_across_restart)
+    when a symbolic start rolls over between the two requests"""
+    return (finding.get("class") == "publish-steps-back-across-symbolic-rollover"
+            and failure.get("kind") in ("time-moves-back", "patch-not-equivalent")
+            and bool(failure.get("ast_changed")))
 
 
 def replay_finding(ctx, finding):
-    return None
+    import appboot
+    import segchecks
+    import segwalk
+    w = finding["witness"]
+    app = segchecks.get_app()
+    c = app.client()
+    with appboot.Clock(w["t1"]) as clock:
+        r1 = c.get(w["url"])
+        clock.set(w["t2"])
+        r2 = c.get(w["url"])
+    if r1.status_code != 200 or r2.status_code != 200:
+        return False
+    m1 = segwalk.parse_mpd("http://localhost" + w["url"], r1.data)
+    m2 = segwalk.parse_mpd("http://localhost" + w["url"], r2.data)
+    return m2.publish_us < m1.publish_us
 
 
 def search(ctx, disagreements):
